@@ -6,6 +6,7 @@
 #include "simulator/packet.hpp"
 #include "simulator/http_server.hpp"
 #include "simulator/http_proxy.hpp"
+#include "simulator/socks_server.hpp"
 #include <map>
 #include <memory>
 #include <array>
@@ -237,6 +238,7 @@ struct runner
 	std::map<long long, long long> obj_node;
 	std::map<long long, std::unique_ptr<sim::http_server>> https;
 	std::map<long long, std::unique_ptr<sim::http_proxy>> proxies;
+	std::map<long long, std::unique_ptr<sim::socks_server>> sockss;
 	std::string pcap_path;
 
 	static std::string unhex(std::string const& h)
@@ -647,6 +649,14 @@ struct runner
 		else if (c == "http_stop") https.at(arg(1))->stop();
 		else if (c == "proxy_new") proxies[arg(1)].reset(new sim::http_proxy(node(arg(2)), std::uint16_t(arg(3))));
 		else if (c == "proxy_stop") proxies.at(arg(1))->stop();
+		else if (c == "socks_new") sockss[arg(1)].reset(new sim::socks_server(node(arg(2)), std::uint16_t(arg(3)), int(arg(4)), std::uint32_t(arg(5))));
+		else if (c == "socks_stop") sockss.at(arg(1))->stop();
+		else if (c == "socks_bind_start") sockss.at(arg(1))->bind_start_port(int(arg(2)));
+		else if (c == "socks_counts")
+		{
+			auto const cnt = sockss.at(arg(1))->cmd_counts();
+			tr.line("L t=%lld 4 20 %lld %d %d %d", now_ns(), arg(1), cnt[0], cnt[1], cnt[2]);
+		}
 		else if (c == "tcp_write_bytes")
 		{
 			long long h = arg(3);
@@ -745,7 +755,7 @@ struct runner
 			else op(l, 1);
 		}
 		// tear down: objects first, then nodes, then the simulation (flushes the capture)
-		proxies.clear(); https.clear(); rslvs.clear(); socks.clear(); accs.clear(); udpsocks.clear(); timers.clear();
+		sockss.clear(); proxies.clear(); https.clear(); rslvs.clear(); socks.clear(); accs.clear(); udpsocks.clear(); timers.clear();
 		nodes.clear(); ios.reset(); sim.reset();
 		if (!pcap_path.empty())
 		{
